@@ -72,7 +72,7 @@ class VttContext:
         FontStyleType.italic
       ],
       StyleProperties.TextDecoration: [
-        TextDecorationType.underline
+        # Every values
       ],
       StyleProperties.Color: [],
       StyleProperties.BackgroundColor: []
